@@ -192,6 +192,16 @@ def run(ctx):
             if diff:
                 bad("field:" + diff[0], "symbol %d (%r) of the archive %s: %s is %s; the member stores %s" % (i, t["name"][:40], os.path.basename(ap), diff[0], g[diff[0]], want[diff[0]]), dict(case, index=i))
                 break
+    # a linked shared object (ET_DYN: libdwfl loads it with a bias the symbol values must not show) and a
+    # table with more than 65536 entries (index and position beyond 16 bits)
+    so = os.path.join(d, "libsym.so")
+    if subprocess.run(["ld", "-shared", "-o", so, os.path.join(d, "sym0.o")], stdout=subprocess.PIPE, stderr=subprocess.PIPE).returncode == 0:
+        files.append((so, "shared-object"))
+    bigs = os.path.join(d, "many.s")
+    with open(bigs, "w") as f:
+        f.write("\t.data\n" + "".join("\t.globl m%d\nm%d:\n\t.byte %d\n" % (i, i, i % 251) for i in range(66000)))
+    subprocess.run(["as", "-o", os.path.join(d, "many.o"), bigs], check=True)
+    files.append((os.path.join(d, "many.o"), "many-symbols"))
     machines_seen = set()
     for path, kind in files:
         try:
@@ -224,6 +234,20 @@ def run(ctx):
             if g["doms"][1] != "STT_" or g["doms"][2] != "STB_" or g["doms"][3] != "STV_":
                 bad("domain", "symbol %d of %s: label/binding/visibility are in domains %s" % (i, os.path.basename(path), g["doms"]), case)
                 break
+        # the number the CLI prints in front of every symbol is its index in the table, from zero
+        pr = subprocess.run([common.impl_bin("dwgrep"), path, "-e", "symbol"], stdout=subprocess.PIPE, stderr=subprocess.PIPE, timeout=300)
+        nums = [int(m_.group(1)) for m_ in re.finditer(r"^(\d+):\t", pr.stdout.decode("latin1"), re.M)]
+        evaluations += 1
+        if nums != list(range(len(truth))):
+            k0 = next((i for i, (a, b) in enumerate(zip(nums, range(len(truth)))) if a != b), min(len(nums), len(truth)))
+            bad("index", "the CLI numbers the symbols of %s %s...; entry %d should be numbered %d (%d lines for %d entries)" % (os.path.basename(path), nums[max(0, k0 - 1):k0 + 2], k0, k0, len(nums), len(truth)), dict(case, index=k0))
+        # symbols at different indices are different values (also 65536 entries apart)
+        if len(truth) > 65536 + 2:
+            rq = zw.run_cases([zw.enc("[symbol] (|L| L elem ?(pos == %d) (|A| L elem ?(pos == %d) ?(== A)))" % (a_, a_ + 65536), dw=path, t=120) for a_ in (0, 1, 7)])
+            for a_, r_ in zip((0, 1, 7), rq):
+                evaluations += 1
+                if not r_.ok() or r_.results:
+                    bad("index", "symbols %d and %d of %s compare equal" % (a_, a_ + 65536, os.path.basename(path)), dict(case, index=a_))
         # the family rule: which symbols equal which STT_/STB_ word
         qs = [zw.enc("[symbol ?(%s == %s) pos]" % ("label" if k == "STT" else "binding", w), dw=path, max=1000000) for w, k, c, f in words]
         rs = zw.run_cases(qs)
@@ -237,7 +261,7 @@ def run(ctx):
     common.report_broken_obligations(ctx, oblig, bool(ctx.violations))
     ctx.cov.update({
         "evaluations": evaluations, "distinct_nontrivial": nsyms,
-        "rule": "%d ELF files: freshly assembled objects (40/120 generated symbols each: function/object/tls/notype/ifunc/unique/common x global/weak/local x default/hidden/protected/internal, absolute, undefined, weak undefined, section and file symbols, long names), each also patched to random type/binding codes 0-15 with st_other upper bits set and re-labelled as %s; the sample binaries; two ar archives of three and four members (one module per member, symbols of all members in order); every symbol compared on pos, name, value, address, size, type, binding, visibility with a struct-level reader (cross-checked with readelf -sW), and every file x every STT_/STB_ word (%d) on the family rule" % (len(files), "/".join(MACHINES), len(words)),
+        "rule": "%d ELF files: freshly assembled objects (40/120 generated symbols each: function/object/tls/notype/ifunc/unique/common x global/weak/local x default/hidden/protected/internal, absolute, undefined, weak undefined, section and file symbols, long names), each also patched to random type/binding codes 0-15 with st_other upper bits set and re-labelled as %s; the sample binaries; a linked shared object (ET_DYN), an object with 66000 symbols, two ar archives of three and four members (one module per member, symbols of all members in order); every symbol compared on pos, name, value, address, size, type, binding, visibility with a struct-level reader (cross-checked with readelf -sW), and every file x every STT_/STB_ word (%d) on the family rule" % (len(files), "/".join(MACHINES), len(words)),
         "samples": [], "machines_seen": sorted(machines_seen), "traces_validated_against_impl": nsyms + evaluations, "violations_by_kind": viol,
     })
     return ctx.finish(oblig)
